@@ -64,6 +64,54 @@ def psd_append_by_phase(ctx, nph=2, ncls=2, order=(0, 1)):
                       ctx.eq(m.PSDXalpha[p][ncls + i, 0], ctx.uf("xa_" + str(names[p]), m.pData.temperature[0], want_g[i], rng=(0.01, 0.2))))
 
 
+def psd_update_recompute_by_phase(ctx, nph=2, ncls=2, grow=(True, False)):
+    """real _updateParticleSizeDistribution: when the grid of ANY phase changed (here: only the phases marked in `grow` get classes
+    appended) the growth rates are recomputed from the backend for the new grid, whatever the position of that phase in the list"""
+    m, info = mk_kwn(ctx, nph, 2, ncls, hist=1)
+    for p in range(nph):
+        m.precipitateParameters[p]._gamma = 0.1
+        m.PBM[p].originalBins = 4; m.PBM[p].maxBins = 10 * ncls; m.PBM[p].minBins = 2
+        m.PBM[p].getDissolutionIndex = lambda *a, **k: 0
+    calls = []
+
+    def fake_growth(Y):
+        k = len(calls)
+        out = [ctx.reals("regrown%d_%d" % (k, p), m.PBM[p].bins + 1, (0.1, 1.0)) for p in range(nph)]
+        for p in range(nph):
+            ctx.assume(out[p][0] > 0)        # see below: keeps the dissolution re-mesh out of this harness
+        calls.append(out)
+        return out, Y
+    m._growthRate = fake_growth
+    m.growth = [ctx.reals("old_growth%d" % p, ncls + 1, (0.1, 1.0)) for p in range(nph)]
+    m.pData.drivingForce = ctx.reals("dG", (1, nph), (0.1, 1.0))
+    for p in range(nph):
+        ctx.assume(m.pData.drivingForce[0, p] > 0)
+        ctx.assume(m.growth[p][0] > 0)          # not every boundary shrinking: the dissolution re-mesh is not the subject here
+    m.constraints.minRadius = 0.0
+    x = []
+    for p in range(nph):
+        xp = ctx.reals("x%d" % p, ncls, (1.5, 4.0))
+        for i in range(ncls):
+            ctx.assume(xp[i] >= 0)
+        if grow[p]:
+            ctx.assume(xp[ncls - 1] > 1)
+        else:
+            ctx.assume(xp[ncls - 1] <= 1)
+        x.append(xp)
+    m._updateParticleSizeDistribution(ctx.real("t", (0.1, 1.0)), x)
+    changed = [p for p in range(nph) if grow[p]]
+    ctx.prove("the phases marked to grow got classes appended, the others did not", all(m.PBM[p].bins == ncls + (1 if grow[p] else 0) for p in range(nph)))
+    if changed:
+        ctx.prove("growth rates were recomputed after the grid change", len(calls) >= 1)
+        if calls:
+            last = calls[-1]
+            for p in range(nph):
+                ctx.prove("growth array of every phase follows its grid", np.shape(m.growth[p]) == (m.PBM[p].bins + 1,))
+                if np.shape(m.growth[p]) == (m.PBM[p].bins + 1,) and np.shape(last[p]) == np.shape(m.growth[p]):
+                    ctx.prove("growth in use after the update is the recomputed one (not the zero placeholder / the old grid's)",
+                              ctx.all([ctx.eq(m.growth[p][i], last[p][i]) for i in range(m.PBM[p].bins + 1)]))
+
+
 def aspect_callback_by_phase(ctx, nph=2, ncls=2, calc=(True, True)):
     """real _setupAspectRatio: a phase whose aspect ratio is computed from the strain energy interpolates ITS OWN table,
     wherever it is listed (the per-phase callback must not bind the loop variable late)"""
@@ -93,6 +141,11 @@ def aspect_callback_by_phase(ctx, nph=2, ncls=2, calc=(True, True)):
 
 
 EXTRA = [
+    Harness("C11.psd_update_recompute_by_phase", psd_update_recompute_by_phase, functions=[PrecipitateModel._updateParticleSizeDistribution],
+            assumptions=["multicomponent (2 solutes); _growthRate stubbed: fresh symbolic growth arrays per call; driving forces > 0"],
+            bounds={"phases": "nph", "classes": "ncls"},
+            params={"quick": [{"nph": 2, "ncls": 2, "grow": [True, False]}, {"nph": 2, "ncls": 2, "grow": [False, True]}],
+                    "thorough": [{"nph": 3, "ncls": 2, "grow": [True, False, False]}, {"nph": 3, "ncls": 2, "grow": [False, True, False]}, {"nph": 2, "ncls": 2, "grow": [True, True]}]}),
     Harness("C11.aspect_callback_by_phase", aspect_callback_by_phase, functions=[PrecipitateModel._setupAspectRatio, PrecipitateModel._interpolateAspectRatio],
             assumptions=["strainEnergy.eqAR_bySearch stubbed: returns a symbolic table per phase (>= 1)"], bounds={"phases": "nph", "classes": "ncls"},
             params={"quick": [{"nph": 2, "ncls": 2, "calc": [True, True]}, {"nph": 2, "ncls": 2, "calc": [True, False]}],
